@@ -79,12 +79,22 @@ instance (g : Graph) (σ A : List Nat) : Decidable (OwnSafe g σ A) :=
 /-- Executable checker: decides exactly the specification (`ownCheck_iff` in Thm/C01.lean). -/
 def ownCheck (g : Graph) (σ : List Nat) (A : List Nat) : Bool := decide (OwnSafe g σ A)
 
+/-- nodes that keep a borrow of `d` alive through one of their inputs: they use the output of a
+    node that holds a reference to `d` (↔ the second loop of `OwnershipRelationships::compute`,
+    fed by `captured_nodes`; fix "capture-aware ordering"). -/
+def holderUsers (g : Graph) (d : Nat) : List Nat :=
+  (List.range g.size).filter (fun t => t != d && (g.inEdges t).any (fun e => e.isData && holds g e.src d))
+
+/-- ↔ `node_id2borrower_ids[d]` as computed by `OwnershipRelationships::compute`: the nodes that
+    borrow `d` directly, and the nodes that use a value holding a reference to `d`. -/
+def allBorrowers (g : Graph) (d : Nat) : List Nat := g.borrowers d ++ holderUsers g d
+
 /-- ↔ `!is_blocked` in `OrderedCallGraph::order`: every dependency (any edge kind) is placed, and no
     dependency that this node consumes is still borrowed by an unplaced node, unless it is Copy. -/
 def canPlace (g : Graph) (placed : List Nat) (n : Nat) : Bool :=
   (g.preds n).all (fun p =>
     placed.contains p &&
-    !((g.consumers p).contains n && (g.borrowers p).any (fun b => !placed.contains b) &&
+    !((g.consumers p).contains n && (allBorrowers g p).any (fun b => !placed.contains b) &&
       !(g.node p).copy))
 
 /-- `σ` extends `placed` by legal placements only. -/
@@ -129,7 +139,7 @@ def holdersFirst (g : Graph) (σ A : List Nat) : Bool := decide (NoMoveWhileBorr
 
 /-- no non-Copy value is both consumed and borrowed. -/
 def noConflict (g : Graph) : Bool :=
-  (List.range g.size).all (fun d => (g.node d).copy || (g.consumers d).isEmpty || (g.borrowers d).isEmpty)
+  (List.range g.size).all (fun d => (g.node d).copy || (g.consumers d).isEmpty || (allBorrowers g d).isEmpty)
 
 /-- `τ` lists every node once and respects every edge (the graph is acyclic). -/
 def isTopo (g : Graph) (τ : List Nat) : Bool :=
